@@ -79,7 +79,10 @@ def make_data(rng, d=None, n_classes=None, n_per_class=None, n_tuples=None, sep=
   yreg = grid(X.dot(rng.standard_normal(d)) + 0.1 * rng.standard_normal(n))
   return dict(X=X, y=y, yreg=yreg, d=d, n=n, n_classes=n_classes,
               pairs_idx=pidx, ypairs=ypairs, trip_idx=np.array(trip), quad_idx=np.array(quad),
-              chunks=chunks)
+              chunks=chunks,
+              # for the chunk learner called directly: half of the data sets are passed without their unchunked points
+              # (decided by the data, so that the generator's stream is the same as before)
+              all_chunked=bool(int(abs(X[0, 0]) * 1024) % 2 == 0))
 
 
 def encode_labels(rng, data):
@@ -143,6 +146,9 @@ def _fit_args(name, data):
   if k == 'reg':
     return (X, data['yreg'])
   if k == 'chunks':
+    if data.get('all_chunked') and name == 'RCA':
+      keep = data['chunks'] >= 0
+      return (np.ascontiguousarray(X[keep]), data['chunks'][keep])
     return (X, data['chunks'])
   if k == 'pairs':
     return (X[data['pairs_idx']], data['ypairs'])
@@ -247,6 +253,14 @@ def option_variants(name, data, rng):
   if name == 'SCML':
     out.append(dict(basis='triplet_diffs'))
     B = rng.standard_normal((3 * d, d))
+    out.append(dict(basis=B / np.linalg.norm(B, axis=1)[:, None], n_basis=None))
+  if name in ('SCML', 'SCML_Supervised') and d >= 2:
+    # bases given as arrays that do not span the space: more rows than features, rank below n_features
+    B = rng.standard_normal((3 * d, d))
+    B[:, int(rng.integers(0, d))] = 0.0
+    out.append(dict(basis=B / np.linalg.norm(B, axis=1)[:, None], n_basis=None))
+    E = np.eye(d)
+    B = np.array([E[i] - E[j] for i in range(d) for j in range(d) if i != j])
     out.append(dict(basis=B / np.linalg.norm(B, axis=1)[:, None], n_basis=None))
   if name == 'SCML_Supervised':
     out.append(dict(basis='lda'))
